@@ -114,6 +114,8 @@ struct HopServe {
     hop: usize,
     /// nested calls are made with `context::current()` instead of the handler's context argument
     usecur: bool,
+    /// added to the deadline of the nested call
+    extend_ms: u64,
     next: Option<ClientChannel<Req, Resp>>,
     ctl: Rc<RefCell<Ctl>>,
 }
@@ -157,8 +159,13 @@ impl Serve for HopServe {
         let mut cv = tc(&cur.trace_context);
         cv["rel"] = json!(rel_of(ms_of(cur.deadline)));
         v["cur"] = cv;
+        let mut ctx = if self.usecur { cur } else { ctx };
+        // `extend`: the handler gives its nested call a later deadline than its own (it may: the context is the caller's to choose)
+        if self.extend_ms > 0 {
+            ctx.deadline += std::time::Duration::from_millis(self.extend_ms);
+        }
+        v["nrel"] = json!(rel_of(ms_of(ctx.deadline)));
         emit("ChainHandlerStart", v);
-        let ctx = if self.usecur { cur } else { ctx };
         let mut guard = DropLog { hop: self.hop, finished: false };
         let out = match self.next {
             Some(next) => {
@@ -206,6 +213,7 @@ struct St {
     usecur: bool,
     otel: bool,
     own: bool,
+    extend_ms: u64,
 }
 
 // The clients of hops 2.. must be reachable when a handler is created; keep them here.
@@ -248,7 +256,7 @@ fn build(cfg: &Value) -> St {
     drop(_g);
     let head = clients[0].take();
     CLIENTS.with(|c| *c.borrow_mut() = clients);
-    St { clock, depth, hops, links, head, call: None, cflag: Flag::new("call", true), ctl, head_dl: 0, usecur: cfg["usecur"].as_bool().unwrap_or(false), otel: false, own: cfg["own"].as_bool().unwrap_or(false) }
+    St { clock, depth, hops, links, head, call: None, cflag: Flag::new("call", true), ctl, head_dl: 0, usecur: cfg["usecur"].as_bool().unwrap_or(false), otel: false, own: cfg["own"].as_bool().unwrap_or(false), extend_ms: cfg["extend"].as_u64().unwrap_or(0) }
 }
 
 impl St {
@@ -355,7 +363,7 @@ impl St {
                             None
                         };
                         emit("ChainYield", json!({"k": k + 1, "id": ifr.get().id, "dl": ms_of(ifr.get().context.deadline).clamp(-CLAMP, CLAMP)}));
-                        let serve = HopServe { hop: k + 1, usecur: self.usecur, next, ctl: self.ctl.clone() };
+                        let serve = HopServe { hop: k + 1, usecur: self.usecur, extend_ms: self.extend_ms, next, ctl: self.ctl.clone() };
                         let fut: BoxFut<()> = under_server(|| Box::pin(ifr.execute(serve)) as BoxFut<()>);
                         self.hops[k].handlers.push((Some(fut), Flag::new(&format!("h{}", k + 1), true)));
                         flag.set.store(true, std::sync::atomic::Ordering::SeqCst);
@@ -603,7 +611,8 @@ pub fn run(a: &Args) -> Value {
             steps.push(if abandoned { json!({"a": "Settle"}) } else if rng.gen_bool(0.5) { json!({"a": "CompleteLeaf"}) } else { json!({"a": "Abandon"}) });
         }
         let usecur = sub.starts_with("otel") && rng.gen_bool(0.5);
-        scheds.push(Sched { id: format!("r{}", i), cfg: json!({"depth": depth, "delays": delays, "gated": gated, "usecur": usecur, "own": rng.gen_bool(0.4)}), steps, expect: None });
+        let extend = [0u64, 0, 0, 7, 1000][rng.gen_range(0..5)];
+        scheds.push(Sched { id: format!("r{}", i), cfg: json!({"depth": depth, "delays": delays, "gated": gated, "usecur": usecur, "own": rng.gen_bool(0.4), "extend": extend}), steps, expect: None });
     }
     let mut index = vec![];
     for (si, s) in scheds.iter().enumerate() {
